@@ -112,16 +112,13 @@ func (rr Regions) Resize(mod Modifier) Region {
 	}
 
 	left, right := 0, 0
-	for k := 0; k+1 < len(rr); k++ {
-		n := rr[k].Len()
-		if n < lower {
-			left = k + 1
-			lower -= n
-		}
-		if n < upper {
-			right = k + 1
-			upper -= n
-		}
+	for left+1 < len(rr) && rr[left].Len() < lower {
+		lower -= rr[left].Len()
+		left++
+	}
+	for right+1 < len(rr) && rr[right].Len() < upper {
+		upper -= rr[right].Len()
+		right++
 	}
 
 	switch Compare(left, right) {
